@@ -19,7 +19,7 @@ ZKINDS = (
     "one", "few_disjoint", "few_overlap", "equal", "repeated", "many_disjoint", "nan_s",
     "2d", "mi", "mi_transform_only", "mi_fit_only", "2d_nan_s", "mi_nan_s",
 )  # fmt: skip
-REFUSAL_OK = ("mi_transform_only", "mi_fit_only")
+REFUSAL_OK = ("mi_fit_only",)  # measured: MultiIndex only at transform is projected and labelled correctly by every class
 RULE = (
     "structured corpus = every transform-capable class x every new-data class (1 sample; 2-8 disjoint; overlapping; "
     "equal to training; repeated labels; more samples than training; entirely missing samples; two sample dims of other "
@@ -31,7 +31,7 @@ RULE = (
 ASSUMPTIONS = [
     "labels of the generated inputs are the ground truth for matching rows; repeated labels are matched by order of occurrence",
     "new data share the feature layout of the training data incl. the positions of entirely missing features",
-    "fit with a plain index / transform with a MultiIndex on the same dim (and the converse) may be refused by the code: an exception there is 'refused', any returned result is checked",
+    "fit with a MultiIndex / transform with a plain index on the same dim may be refused by the code: an exception there is 'refused', any returned result is checked (the converse - a MultiIndex only on the new data - must work)",
     "cross-set inputs have their entirely missing samples at the same positions in both fields",
 ]
 EXHAUSTIVE = {"quick": False, "thorough": False}
